@@ -122,20 +122,28 @@ Definition cellrows (D : list row) (ri ci : nat) (c l : Z) : list row :=
   filter (fun r => (rkey ri r =? c) && (rkey ci r =? l)) D.
 
 (* ------------------------------------------------------ the whole object *)
+(* the names of the two dimensions (_row_name, _col_name: alias-resolved) and _meta *)
+Record dims := { d_rown : string; d_coln : string; d_meta : list (string * cell) }.
+
 Record wl := {
   w_names : names;
   w_ri : nat; w_ci : nat;           (* _rowIdx, _colIdx *)
   w_data : list row;                (* _data *)
-  w_index : index
+  w_index : index;
+  w_dims : dims
 }.
 
-(* Wordlist(dict): None when the constructor raises or the input is outside
-   the model (names that are not non-empty strings) *)
-Definition build (t : conf) (K : keys) (hdr : list string) (d : list row) : option wl :=
+(* Wordlist(dict, row=row, col=col): None when the constructor raises or the
+   input is outside the model (names that are not non-empty strings).  [meta]:
+   the non-integer keys of the dictionary (a list of names is a Multi cell).
+   Wordlist.__init__ finally stores the language list under _alias['taxa']
+   unless the metadata already has that key. *)
+Definition build_gen (t : conf) (K : keys) (hdr : list string) (d : list row)
+           (row col : string) (meta : list (string * cell)) : option wl :=
   match init_names t hdr with
   | None => None
   | Some n =>
-      match resolve_item n "concept", resolve_item n "doculect" with
+      match resolve_item n row, resolve_item n col with
       | Some ri, Some ci =>
           let data := keep_rows d in
           match data with
@@ -143,13 +151,24 @@ Definition build (t : conf) (K : keys) (hdr : list string) (d : list row) : opti
           | _ =>
             match to_prows (List.length (n_header n)) ri ci data with
             | None => None
-            | Some P => Some {| w_names := n; w_ri := ri; w_ci := ci; w_data := data;
-                                w_index := build_index K P |}
+            | Some P =>
+                let X := build_index K P in
+                let meta' := match sget (n_alias n) "taxa" with
+                             | Some nm => if smem meta nm then meta else meta ++ [(nm, Multi (x_cols X))]
+                             | None => meta
+                             end in
+                Some {| w_names := n; w_ri := ri; w_ci := ci; w_data := data; w_index := X;
+                        w_dims := {| d_rown := match sget (n_alias n) row with Some x => x | None => row end;
+                                     d_coln := match sget (n_alias n) col with Some x => x | None => col end;
+                                     d_meta := meta' |} |}
             end
           end
       | _, _ => None
       end
   end.
+
+Definition build (t : conf) (K : keys) (hdr : list string) (d : list row) : option wl :=
+  build_gen t K hdr d "concept" "doculect" [].
 
 (* add_entries(entry, source, f, override) with a single source column.
    [Some None] is not produced; None = raises, or the interactive "override?"
@@ -169,7 +188,7 @@ Definition add_entries (w : wl) (entry source : string) (f : cell -> cell) (over
     match sget (n_hdr n) source, sget (n_hdr n) (lower entry) with
     | Some src, Some tgt =>
         Some {| w_names := n; w_ri := w_ri w; w_ci := w_ci w;
-                w_data := set_col f src tgt (w_data w); w_index := w_index w |}
+                w_data := set_col f src tgt (w_data w); w_index := w_index w; w_dims := w_dims w |}
     | _, _ => None
     end
   else
@@ -179,7 +198,7 @@ Definition add_entries (w : wl) (entry source : string) (f : cell -> cell) (over
         match sget (n_hdr n') source with
         | None => None
         | Some src => Some {| w_names := n'; w_ri := w_ri w; w_ci := w_ci w;
-                              w_data := app_col f src (w_data w); w_index := w_index w |}
+                              w_data := app_col f src (w_data w); w_index := w_index w; w_dims := w_dims w |}
         end
     end.
 
@@ -189,7 +208,7 @@ Definition set_cell (w : wl) (id : Z) (s : string) (v : cell) : option wl :=
   | Some k, Some _ =>
       Some {| w_names := w_names w; w_ri := w_ri w; w_ci := w_ci w;
               w_data := map (fun r => if fst r =? id then (fst r, upd k v (snd r)) else r) (w_data w);
-              w_index := w_index w |}
+              w_index := w_index w; w_dims := w_dims w |}
   | _, _ => None
   end.
 
@@ -203,5 +222,42 @@ Definition entry_arg (w : wl) (s : string) : option (option nat) :=
 Definition getitem_col (w : wl) (s : string) : option (list cell) :=
   match resolve_item (w_names w) s with
   | Some k => Some (map (fun r => nth k (snd r) POISON) (w_data w))
+  | None => None
+  end.
+
+(* attribute access wl.<s> (__getattr__): a column alias wins over metadata:
+   the row dimension gives rows, the column dimension cols, any other column
+   its entry table; only then the metadata; else AttributeError *)
+Inductive attr_res :=
+| AList (l : list Z)                 (* a flat list of names (rows, cols, or a metadata list) *)
+| ATable (t : list (list cell))      (* get_entries *)
+| AAtom (z : Z)                      (* a metadata string / number *)
+| AErr.                              (* AttributeError *)
+
+Definition get_attr (w : wl) (s : string) : attr_res :=
+  let meta_or_err := match sget (d_meta (w_dims w)) s with
+                     | Some (Multi l) => AList l
+                     | Some (Atom z) => AAtom z
+                     | None => AErr
+                     end in
+  match sget (n_alias (w_names w)) s with
+  | Some n =>
+      if String.eqb n (d_rown (w_dims w)) then AList (x_rows (w_index w))
+      else if String.eqb n (d_coln (w_dims w)) then AList (x_cols (w_index w))
+      else match sget (n_hdr (w_names w)) n with
+           | Some k => ATable (get_entries (w_data w) (w_index w) k)
+           | None => meta_or_err
+           end
+  | None => meta_or_err
+  end.
+
+(* get_list(s=v, flat=True) with a keyword s other than row, col: the keyword is resolved through the aliases
+   to one of the two dimensions; None: ValueError *)
+Definition kw_list (w : wl) (s : string) (v : Z) : option (list cell) :=
+  match sget (n_alias (w_names w)) s with
+  | Some n =>
+      if String.eqb n (d_coln (w_dims w)) then get_list_col_flat (w_data w) (w_index w) v None
+      else if String.eqb n (d_rown (w_dims w)) then get_list_row_flat (w_data w) (w_index w) v None
+      else None
   | None => None
   end.
